@@ -701,6 +701,26 @@ def nest_ctx(depth):
     return {"feel": "{a:" * depth + "1" + "}" * depth}
 
 
+def nest_ctx_distinct(depth):
+    """a context nested `depth` deep whose entry has another name at every level (typed binding: the names never pass through the lexer)"""
+    v = N(1)
+    for i in range(depth - 1, -1, -1):
+        v = {"c": [["k%d" % i, v]]}
+    return v
+
+
+SCOPE_NEST_CLS = "nesting:scope-context-distinct-keys"
+SCOPE_NEST_BUDGET = 2.0
+
+
+def enum_scope_nesting(ctx, depths):
+    """a trivial text parsed (and evaluated) over a scope that binds a deeply nested context: the lexer asks the scope for its known names"""
+    for d in depths:
+        for text in ("x + 1", "c.k0", "x"):
+            yield {"t": text, "es": ["textual"], "s": [[["c", nest_ctx_distinct(d)], ["x", N(1)]]], "sk": "scope-nest-%d" % d, "cls": SCOPE_NEST_CLS, "k": 10 ** 6,
+                   "part": "ramp", "labels": ["depth:%d" % d, "shape:scope-context-distinct-keys"], "budget": SCOPE_NEST_BUDGET}
+
+
 # (label, binding, FEEL literal or None).  n = 3 is the size of the baseline list / string.
 NUMS = [
     ("0", N(0), "0"), ("1", N(1), "1"), ("-1", N(-1), "-1"), ("0.5", N("0.5"), "0.5"), ("-0.5", N("-0.5"), "-0.5"), ("2", N(2), "2"),
@@ -743,7 +763,10 @@ OTHERS = [
     ("[\"b\",\"a\"]", {"l": [{"s": "b"}, {"s": "a"}]}, None), ("[true,false]", {"l": [True, False]}, None), ("[ctx]", {"l": [{"c": [["a", N(1)]]}, {"c": [["a", N(2)]]}]}, None),
     ("[1,1,2,2]", {"l": [N(1), N(1), N(2), N(2)]}, None), ("scrambled40", {"l": [N((i * 17 + 5) % 23) for i in range(40)]}, None),
     ("list-with-NaN", {"feel": "for i in [3,1,2,5,4,7,6,9,8,11,10,0,13,12,15,14,17,16,19,18,21,20,23,22,5,24,2,1,0,5,5,1,9,7] return if modulo(i,5)=0 then decimal(10**32,5) else i"}, None),
-    ("list-with-Infinity", {"feel": "[10**6144*10, 1, -(10**6144*10), 2, 10**6144*10]"}, None), ("[big,-big]", {"l": [N("9E+6144"), N("9E+6144"), N("-9E+6144")]}, None),
+    ("list-with-Infinity", {"feel": "[10**6144*10, 1, -(10**6144*10), 2, 10**6144*10]"}, None),
+    # scalars computed by chained operations whose intermediate result leaves the range (null on a correct tree; an infinity or a NaN where a guard is missing)
+    ("sum-out-of-range", {"feel": "sum([10**6144*9, 10**6144*9])"}, "sum([10**6144*9, 10**6144*9])"), ("mean-out-of-range", {"feel": "-mean([10**6144*9, 10**6144*9])"}, None),
+    ("modulo-of-out-of-range", {"feel": "modulo(sum([10**6144*9, 10**6144*9]), 2)"}, "modulo(sum([10**6144*9, 10**6144*9]), 2)"), ("[big,-big]", {"l": [N("9E+6144"), N("9E+6144"), N("-9E+6144")]}, None),
     ("{}", {"c": []}, "{}"), ("{a:1}", {"c": [["a", N(1)]]}, "{a:1}"), ("ctx200", nest_ctx(200), None), ("{\"\":1}", {"c": [["", N(1)]]}, None),
     ("range", {"feel": "[1..5]"}, "[1..5]"), ("range-open", {"feel": "(1..5)"}, "(1..5)"), ("range-rev", {"feel": "[5..1]"}, "[5..1]"),
     ("range-str", {"feel": '["a".."z"]'}, None), ("range-date", {"feel": '[date("2020-01-01")..date("2021-01-01")]'}, None),
@@ -764,7 +787,7 @@ OTHERS = [
 ]
 ALPHABET = NUMS + STRS + OTHERS
 AIDX = {a[0]: i for i, a in enumerate(ALPHABET)}
-CORE = ["nul", "list-with-NaN", "scrambled40", "0", "1", "-1", "0.5", "n", "-(n+1)", "n+1", "2^63", "2^64-1", "2^64", "1E+6000", "-0", "\"\"", "\"abc\"", "str1000", "null", "true", "[]", "[1,2,3]", "list1000",
+CORE = ["nul", "list-with-NaN", "sum-out-of-range", "modulo-of-out-of-range", "scrambled40", "0", "1", "-1", "0.5", "n", "-(n+1)", "n+1", "2^63", "2^64-1", "2^64", "1E+6000", "-0", "\"\"", "\"abc\"", "str1000", "null", "true", "[]", "[1,2,3]", "list1000",
         "nested", "{a:1}", "range", "fn2", "date", "time", "dt-zone", "dtd", "ymd", "dtd-max"]
 
 DATESTR = ["2021-03-28", "999999999-12-31", "-999999999-01-01", "2020-02-29", "2021-02-29", "2021-13-01", "2021-00-00", "0000-01-01", "0999-01-01",
@@ -1542,6 +1565,13 @@ def run(ctx):
                           batch=1000, exhaustive=True)
             ctx.enumerate(ctx.p_ramp, (c for c in enum_ramps(ctx, d) if c["cls"] in suspects), name="nesting shapes x entry points at depth %d" % d, batch=1)
         ctx.enumerate(ctx.p_ramp, enum_deep_values(ctx, ctx.deep), name="built-ins and operators on values nested %d deep" % ctx.deep, batch=1000)
+        # a nested context bound in the parsing scope, another entry name at every level: quick = the depths that answer at once; the depths at
+        # which the open finding scope-context-distinct-keys (cost 2^depth) does not answer any more are probed in the thorough tier only
+        set_budget(ctx, SCOPE_NEST_BUDGET)
+        ctx.enumerate(ctx.p_ramp, enum_scope_nesting(ctx, [2, 4, 8, 12, 14]), name="text over a scope binding a context nested 2..14 deep (distinct names)", batch=3, exhaustive=True)
+        if ctx.thorough():
+            ctx.enumerate(ctx.p_ramp, enum_scope_nesting(ctx, [16, 24, 200]), name="text over a scope binding a context nested 16, 24, 200 deep (distinct names)", batch=1, exhaustive=True)
+        set_budget(ctx, RAMP_BUDGET)
         done(ctx, "ramp")
     set_budget(ctx, _budget(ctx))
     if want(ctx.p_harvested):
